@@ -100,10 +100,108 @@ def verify(sid, tier):
         shutil.rmtree(scr, ignore_errors=True)
 
 
+BENIGN = os.path.join(ROOT, "seeded-benign")
+ALL_PROPS = [f"C{i:02d}" for i in range(1, 21)]
+
+
+def do_import3(agent_dir, prop):
+    """Round 3: out-<PROP>/ holds break1.diff + demo1.py (a breaking change) and benignA/B.diff + benign_check.py
+    (property-preserving changes)."""
+    sid = f"{prop}-r3s1"
+    d = os.path.join(SEEDED, sid)
+    os.makedirs(d, exist_ok=True)
+    shutil.copy(os.path.join(agent_dir, "break1.diff"), os.path.join(d, "patch.diff"))
+    shutil.copy(os.path.join(agent_dir, "demo1.py"), os.path.join(d, "demo.py"))
+    if os.path.exists(os.path.join(agent_dir, "NOTES.md")):
+        shutil.copy(os.path.join(agent_dir, "NOTES.md"), os.path.join(d, "agent_notes.md"))
+    json.dump({"id": sid, "property": prop, "demo_kind": "script", "source": "round 3: independent sub-agent given only the property text and a scratch worktree; asked for one subtle breaking change and two property-preserving ones"}, open(os.path.join(d, "meta.json"), "w"), indent=1)
+    print("imported", sid)
+    for letter in "AB":
+        src = os.path.join(agent_dir, f"benign{letter}.diff")
+        if not os.path.exists(src):
+            continue
+        bid = f"{prop}-r3b{letter}"
+        d = os.path.join(BENIGN, bid)
+        os.makedirs(d, exist_ok=True)
+        shutil.copy(src, os.path.join(d, "patch.diff"))
+        shutil.copy(os.path.join(agent_dir, "benign_check.py"), os.path.join(d, "check.py"))
+        if os.path.exists(os.path.join(agent_dir, "NOTES.md")):
+            shutil.copy(os.path.join(agent_dir, "NOTES.md"), os.path.join(d, "agent_notes.md"))
+        json.dump({"id": bid, "property": prop, "source": "round 3: property-preserving change written by an independent sub-agent that saw only the property text"}, open(os.path.join(d, "meta.json"), "w"), indent=1)
+        print("imported", bid)
+
+
+def verify_benign(bid, tier, props=None):
+    """The change applies, the suite passes, the agent's own property check passes with and without it - and then every
+    listed check (default: all 20) must stay SILENT (exit 0) on the changed copy."""
+    d = os.path.join(BENIGN, bid)
+    meta_path = os.path.join(d, "meta.json")
+    meta = json.load(open(meta_path))
+    scr = tempfile.mkdtemp(prefix="vf-benign-")
+    try:
+        mut = os.path.join(scr, "mut")
+        os.makedirs(mut)
+        for item in ("src", "tests", "pyproject.toml", "README.md", "LICENSE"):
+            s = os.path.join("/repo", item)
+            if os.path.isdir(s):
+                shutil.copytree(s, os.path.join(mut, item), ignore=shutil.ignore_patterns("__pycache__", "*.egg-info"))
+            elif os.path.exists(s):
+                shutil.copy(s, mut)
+        rc, out = sh(["patch", "-p1", "-s", "-i", os.path.join(d, "patch.diff")], cwd=mut)
+        meta["applies"] = rc == 0
+        if rc:
+            meta["apply_output"] = out[-500:]
+            return meta
+        e0 = dict(os.environ)
+        e0.update(PYTHONPATH=os.path.join(mut, "src"), PYTHONDONTWRITEBYTECODE="1", PYTHONPYCACHEPREFIX=os.path.join(scr, "pyc-mut"))
+        rc, out = sh([PY, "-m", "pytest", "-q", "-p", "no:cacheprovider", "-x"], cwd=mut, env=e0)
+        meta["suite_passes_with_change"] = rc == 0
+        meta["suite_tail"] = out.strip().splitlines()[-1] if out.strip() else ""
+        rc, out = sh([PY, os.path.join(d, "check.py")], cwd=mut, env=e0, timeout=1200)
+        meta["agent_check_passes_with_change"] = rc == 0
+        e = dict(os.environ)
+        e.update(VF_REPO_SRC=os.path.join(mut, "src"), PYTHONPYCACHEPREFIX=os.path.join(scr, "pyc-check"), VF_EVIDENCE_DIR=os.path.join(scr, "evidence"), VF_REPLAY_DIR=os.path.join(scr, "replays"))
+        e.pop("PYTHONPATH", None)
+        results = {}
+        if not props:
+            # the property the variant was written for + every check that exercises a file it touches
+            by_file = {"_asn1.py": "C01 C04 C05 C06 C07", "_blob.py": "C01 C04 C05 C06 C08 C11", "_client.py": "C01 C02 C09 C10 C16 C17 C19 C20", "_crypto.py": "C01 C02 C03 C04 C05 C19",
+                       "_gkdi.py": "C01 C02 C03 C05 C10 C11 C17", "_dns.py": "C17 C20", "_epm.py": "C12 C17 C18", "_security_descriptor.py": "C01 C08 C17", "_rpc/": "C10 C12 C13 C14 C15 C16 C17 C18"}
+            touched = open(os.path.join(d, "patch.diff")).read()
+            props = sorted({meta["property"]} | {p for f, ps in by_file.items() if ("dpapi_ng/" + f) in touched for p in ps.split()})
+        for pr in props:
+            rc, out = sh([os.path.join(ROOT, "check"), pr, "--tier", tier], cwd=ROOT, env=e, timeout=7200)
+            mech = [l.split("mechanism=")[1][:200] for l in out.splitlines() if l.startswith("  violation mechanism=")]
+            inc = [l[:200] for l in out.splitlines() if l.startswith("INCONCLUSIVE")]
+            results[pr] = {"exit": rc, "verdict": {0: "silent", 1: "ALARM", 2: "inconclusive"}.get(rc, str(rc)), "mechanisms": mech[:3], "inconclusive": inc[:2]}
+        meta.setdefault("check_results", {})[tier] = results
+        return meta
+    finally:
+        json.dump(meta, open(meta_path, "w"), indent=1, sort_keys=True)
+        shutil.rmtree(scr, ignore_errors=True)
+
+
 def main():
     if sys.argv[1] == "import":
         do_import(sys.argv[2], sys.argv[3], sys.argv[4])
         return
+    if sys.argv[1] == "import3":
+        do_import3(sys.argv[2], sys.argv[3])
+        return
+    if sys.argv[1] == "verify-benign":
+        tier = "thorough" if "--thorough" in sys.argv else "quick"
+        props = [a.split("=", 1)[1].split(",") for a in sys.argv[2:] if a.startswith("--props=")]
+        prefixes = [a for a in sys.argv[2:] if not a.startswith("--")]
+        bad = 0
+        for bid in sorted(os.listdir(BENIGN)) if os.path.isdir(BENIGN) else []:
+            if prefixes and not any(bid.startswith(p) for p in prefixes):
+                continue
+            m = verify_benign(bid, tier, props[0] if props else None)
+            res = m.get("check_results", {}).get(tier, {})
+            noisy = {p: r for p, r in res.items() if r["exit"] != 0}
+            bad += bool(noisy)
+            print(f"{bid:12s} applies={m.get('applies')} suite={m.get('suite_passes_with_change')} agent_check={m.get('agent_check_passes_with_change')} silent={len(res) - len(noisy)}/{len(res)} " + "  ".join(f"{p}:{r['verdict']}{r['mechanisms'] or r['inconclusive']}" for p, r in noisy.items()), flush=True)
+        sys.exit(1 if bad else 0)
     tier = "thorough" if "--thorough" in sys.argv else "quick"
     prefixes = [a for a in sys.argv[2:] if not a.startswith("--")]
     for sid in sorted(os.listdir(SEEDED)):
